@@ -76,6 +76,8 @@ let parse_item (w : string) : item =
   match w.[0] with
   | 'S' -> IStr (str_of_hex rest)
   | 'N' -> INum (z_of_decimal rest)
+  | 'X' -> (* an insertion that makes the statement's stringstream fail *)
+      (match rest with "x" -> IFail FNullCStr | "y" -> IFail FNullStreambuf | "z" -> IFail FUserFailbit | _ -> raise Bad)
   | 'C' -> (* C<kind><id>.<hex>: the kind is the C++ shape of the callable; the model carries it and ignores it *)
       if rest = "" then raise Bad else
       let k = (match rest.[0] with
@@ -93,13 +95,19 @@ type pword = POp of op | PKind of logger * sev | PGet of nat * nat
 
 let nslots = 4
 
+(* "O" / "M" followed by nothing (straight-line code) or u | c | d: the context the statement is executed in (ignored by the model) *)
+let parse_ctx (h : string) : sctx =
+  match String.length h, (if String.length h = 2 then h.[1] else 'n') with
+  | 1, _ -> CNormal | 2, 'u' -> CUnwinding | 2, 'c' -> CCatch | 2, 'd' -> CDtor | _ -> raise Bad
+
 let parse_word (o : string) : pword =
   let f = String.split_on_char ':' o in
   if o = "" then raise Bad else
   match o.[0], f with
   | 'T', [_] when String.length o = 4 -> POp (OSet (rec_id o.[1], nat_of_int (digit o.[2] 2), sev_of_int (digit o.[3] 6)))
   | 'G', [_] when String.length o = 3 -> PGet (rec_id o.[1], nat_of_int (digit o.[2] 2))
-  | 'O', [_; lg; sv; tag; its] -> POp (OOne (parse_logger lg, sev_of_int (digit sv.[0] 6), parse_tag tag, parse_items its))
+  | 'O', [h; lg; sv; tag; its] -> POp (OOne (parse_ctx h, parse_logger lg, sev_of_int (digit sv.[0] 6), parse_tag tag, parse_items its))
+  | 'M', [h; lg; sv; tag; its] -> POp (ONamed (parse_ctx h, parse_logger lg, sev_of_int (digit sv.[0] 6), parse_tag tag, parse_items its))
   | 'N', [h; lg; sv; tag] when String.length h = 2 -> POp (OOpen (nat_of_int (digit h.[1] nslots), parse_logger lg, sev_of_int (digit sv.[0] 6), parse_tag tag))
   | 'P', [h; it] when String.length h = 2 -> POp (OPut (nat_of_int (digit h.[1] nslots), parse_item it))
   | 'X', [_] when String.length o = 2 -> POp (OClose (nat_of_int (digit o.[1] nslots)))
